@@ -1,21 +1,21 @@
 SPECIFICATION Spec
 CONSTANTS
  Ids = {"a", "b"}
- MaxB = 3
+ MaxB = 2
  BatchShapes <- Shapes2
  Writers = {w1}
  Safe = FALSE
- KeepN = 2
- MaxEp = 8
+ KeepN = 1
+ MaxEp = 6
  MaxSid = 4
  WithReader = FALSE
- WithCopy = FALSE
- WithMerger = FALSE
+ WithCopy = TRUE
+ WithMerger = TRUE
  WithPurge = TRUE
  WithMemMerge = FALSE
  MaxMergeInputs = 2
  AsyncRelease = FALSE
 CONSTRAINT Bound
-INVARIANTS RootIsReplay EveryBoltIsAState Durable NewestLoads BoltFilesOnDisk RootFilesOnDisk NoOrphansWhenQuiescent RollbackOK
+INVARIANTS RootIsReplay HeldAreReplays BoltFilesOnDisk RootFilesOnDisk CopyFilesOnDisk CopyIsPrefix
 PROPERTIES LayoutStutters ReaderStable
 CHECK_DEADLOCK FALSE
